@@ -447,9 +447,66 @@ class _ExprInliner(ast.NodeTransformer):
         return ast.copy_location(_Subst(subst, {}).visit(clone(h.body[0].value)), n)
 
 
+def _calls_in_eval_order(e):
+    """Call nodes of expression e in the order their calls complete (callee and arguments before the call itself)"""
+    out = []
+
+    def rec(n):
+        if isinstance(n, (ast.Lambda, ast.GeneratorExp, ast.ListComp, ast.SetComp, ast.DictComp, ast.IfExp, ast.BoolOp)):
+            out.append(None)        # conditional / deferred evaluation: nothing behind this point may be hoisted
+            return
+        for c in ast.iter_child_nodes(n):
+            rec(c)
+        if isinstance(n, ast.Call):
+            out.append(n)
+    rec(e)
+    return out
+
+
+class _ReplaceNode(ast.NodeTransformer):
+    def __init__(self, old, new):
+        self.old, self.new = old, new
+
+    def visit(self, n):
+        if n is self.old:
+            return self.new
+        return self.generic_visit(n)
+
+
+def _hoist(st, helpers, cls, caller, stats):
+    """`stmt(... helper(args) ...)` with a multi-statement new helper called inside a larger expression ->
+    `_hN = helper(args); stmt(... _hN ...)` when the helper call is the first call the statement evaluates (super() aside),
+    so that the assign form of the inliner applies.  Returns [assign, stmt] or None."""
+    if not isinstance(st, (ast.Expr, ast.Assign, ast.Return, ast.AugAssign)) or getattr(st, "value", None) is None:
+        return None
+    for c in _calls_in_eval_order(st.value):
+        if c is None:
+            return None
+        if isinstance(c.func, ast.Name) and c.func.id == "super":
+            continue
+        h = _call_of(c, helpers, cls)
+        if h is None or c is st.value:
+            return None
+        if len(h.body) == 1 and isinstance(h.body[0], ast.Return):
+            return None             # single expression helper: the expression inliner's business
+        k = stats["hoisted"] = stats.get("hoisted", 0) + 1
+        tmp = "_h%d" % k
+        asg = ast.copy_location(ast.Assign(targets=[ast.Name(id=tmp, ctx=ast.Store())], value=c), st)
+        st.value = _ReplaceNode(c, ast.copy_location(ast.Name(id=tmp, ctx=ast.Load()), c)).visit(st.value)
+        ast.fix_missing_locations(asg)
+        return [asg, st]
+    return None
+
+
 def _rewrite_block(stmts, helpers, cls, caller, stats):
     out = []
-    for st in stmts:
+    todo = list(stmts)
+    while todo:
+        st = todo.pop(0)
+        hs = _hoist(st, helpers, cls, caller, stats)
+        if hs is not None:
+            todo[0:0] = hs
+            continue
         for fld in ("body", "orelse", "finalbody"):
             if isinstance(getattr(st, fld, None), list) and not isinstance(st, (ast.FunctionDef, ast.AsyncFunctionDef, ast.ClassDef)):
                 setattr(st, fld, _rewrite_block(getattr(st, fld), helpers, cls, caller, stats))
@@ -806,4 +863,4 @@ def _replace_loads(fn, v, e, roots=None):
                 elif isinstance(val, list):
                     setattr(x, fld, [r.visit(y) if isinstance(y, ast.AST) else y for y in val])
         return
-    fn.body = [r.visit(s) for s in fn.body]
+    fn.body[:] = [r.visit(s) for s in fn.body]
